@@ -56,18 +56,44 @@ def correspondence(ctx, model_available=True):
     return res
 
 
-def search(ctx, breaks):
-    """Look harder for an input on which the implementation departs from Spec.ISA."""
-    found = []
+def ops_named_in(breaks):
+    """Operation classes a broken obligation or disagreement points at."""
+    import re
+    names = {n for n, _ in ec.real_ops()}
+    hit = []
     for b in breaks:
-        if b["kind"] == "correspondence":
-            continue
-    cases = gen_cases(ctx, 400)
-    try:
-        res, _ = ec.run_cases("C01s", cases, model_available=True)
+        text = repr(b)
+        for m in re.findall(r"(?:exec|calculate|should)_([A-Za-z0-9]+)", text):
+            m = m.split("_")[0]
+            if m in names and m not in hit:
+                hit.append(m)
+        d = b.get("detail")
+        if isinstance(d, dict) and isinstance(d.get("case"), dict) and d["case"].get("op") in names:
+            if d["case"]["op"] not in hit:
+                hit.append(d["case"]["op"])
+    return hit
+
+
+def search(ctx, breaks):
+    """Look harder for an input on which the implementation departs from Spec.ISA:
+    first the operations the broken obligation names (many cases each), then all."""
+    found = []
+    table = dict(ec.real_ops())
+    focus = ops_named_in(breaks)
+    rounds = []
+    if focus:
+        rounds.append([(n, table[n]) for n in focus for _ in range(1500 // max(1, len(focus)))])
+    rounds.append([(n, P) for n, P in ec.real_ops() for _ in range(60)])
+    for k, plan in enumerate(rounds):
+        cases = [ec.make_case(ctx.rng, n, P) for n, P in plan]
+        try:
+            res, _ = ec.run_cases("C01s%d" % k, cases, model_available=True)
+        except Exception as e:  # the model may not build
+            ctx.log("search could not evaluate the specification: %s" % str(e)[-300:])
+            break
         found += res["spec_failures"][:3]
-    except Exception as e:  # model may not build: fall back to nothing
-        ctx.log("search could not evaluate the specification: %s" % str(e)[-300:])
+        if found:
+            break
     return found
 
 
